@@ -47,8 +47,26 @@ def handleSched (lanes kmax : Nat) (vals : List F) : List String :=
    s!"m {rows.length} {" ; ".intercalate (rows.map showVec)}",
    if fromRows == fromEntries then "ichk ok" else "ichk FAIL"]
 
+def showInters (is : List (List F × F)) : String :=
+  " ".intercalate (is.map fun (f, m) => s!"{",".intercalate (f.map toString)}:{m}")
+
 def handle (line : String) : List String :=
   match line.trimAscii.toString.splitOn "|" with
+  | [hd, ml, pl] =>
+    match (hd.trimAscii.toString.splitOn " ").filter (· ≠ "") with
+    | ["send", d, lanes] =>
+      match d.toNat?, lanes.toNat? with
+      | some d, some lanes =>
+        let (ml, pl) := (parseVec ml, parseVec pl)
+        [s!"c {showVec (sendConstraints d lanes ml pl)}", s!"i {showInters (sendInteractions d lanes ml pl)}"]
+      | _, _ => ["bad-op"]
+    | ["recompose", d, lanes, coeff] =>
+      match d.toNat?, lanes.toNat?, coeff.toNat? with
+      | some d, some lanes, some coeff =>
+        let (ml, pl) := (parseVec ml, parseVec pl)
+        ["c ", s!"i {showInters (recomposeInteractions d lanes (coeff == 1) ml pl)}"]
+      | _, _, _ => ["bad-op"]
+    | _ => ["bad-op"]
   | [hd, vals] =>
     match (hd.trimAscii.toString.splitOn " ").filter (· ≠ "") with
     | ["sched", lanes, kmax] =>
